@@ -158,7 +158,7 @@ class DrainRule(S.SeqRule):
         if isinstance(label, tuple) and label[0] == "case" and fn is self.root:
             if label[2] == "SSL_ERROR_SSL" or label[1] == 1:
                 return (True, st.user[1])
-        if label in ("T", "F") and fn is self.root:
+        if label in ("T", "F"):
             l, op, r = C.cond_atom(fn, cond, label == "T")
             ln = fn.sn(l)
             if ln["k"] == "call" and ln.get("callee") == "ERR_peek_error" and op == "!=":
